@@ -1,3 +1,4 @@
+#![cfg(all(feature = "builtins", feature = "macros", feature = "multi_template", feature = "adjacent_loop_items", feature = "fuel", feature = "loop_controls"))]
 // Kani harnesses for minijinja/src/utils.rs (included under cfg(kani)).
 #![allow(unused_imports)]
 use super::*;
